@@ -29,12 +29,12 @@ import (
 const MaxPeers = 8
 
 type keyMaterial struct {
-	peerPriv   crypto.PrivKey
-	peerID     peer.ID
+	peerPriv    crypto.PrivKey
+	peerID      peer.ID
 	peerPrivB64 string
-	rawA       []byte // keystore key stored under the peer id (its public key is the identity id)
-	rawB       []byte // keystore key stored under the identity id (signs entries)
-	identityID string
+	rawA        []byte // keystore key stored under the peer id (its public key is the identity id)
+	rawB        []byte // keystore key stored under the identity id (signs entries)
+	identityID  string
 }
 
 var (
@@ -132,12 +132,12 @@ type World struct {
 
 // Message is one in-flight transport unit.
 type Message struct {
-	Seq    int
-	Kind   string // "topic" or "direct"
-	From   int
-	To     int
-	Topic  string
-	Data   []byte
+	Seq   int
+	Kind  string // "topic" or "direct"
+	From  int
+	To    int
+	Topic string
+	Data  []byte
 }
 
 // New creates a world with n peers using key slots slots (len n) or 0..n-1.
@@ -187,14 +187,14 @@ type Peer struct {
 
 	Disk *Disk
 
-	mu       sync.Mutex
-	DB       orbitdb.OrbitDB
-	direct   *simDirect
-	Offline  bool // Dag().Get never waits for remote blocks
-	gate     bool
-	parked   []*ParkedFetch
-	GetLog   []cid.Cid
-	Journal  *Journal
+	mu      sync.Mutex
+	DB      orbitdb.OrbitDB
+	direct  *simDirect
+	Offline bool // Dag().Get never waits for remote blocks
+	gate    bool
+	parked  []*ParkedFetch
+	GetLog  []cid.Cid
+	Journal *Journal
 }
 
 func newNode(ctx context.Context, slot int) (*ipfsCore.IpfsNode, error) {
